@@ -17,7 +17,7 @@ def register(PROPS):
         'claim': 'For every limit in the bound, written as DTEND, as DURATION in every legal RFC 5545 spelling (with and without a '
                  'leading +) on a single and on a recurring event, the number of seconds echsx arms for the run equals the limit; for '
                  'execution requests with DUE, echsx arms due - now for three positions of the clock and refuses a DUE in the past '
-                 'with the documented journal entry without starting the job.  Real runs: jobs outliving a 1 s / 2 s limit die '
+                 'with the documented journal entry without starting the job (DUE equal to now: refused or killed at once, never started without a timer).  Limits given as local times of two zones (DTSTART and DTEND with TZID, 3-4 events per file, every pattern of Europe/Berlin and America/New_York, five limits) must come out of echsq with the same span for every event.  Real runs: jobs outliving a 1 s / 2 s limit die '
                  'within [limit, limit + 4 s] with the signal in the journal, a job finishing earlier is unaffected; this holds for every request of a '
                  'stream of two or three requests handled by one echsx process (what one request leaves behind - handler, pending alarm - meets the next).',
         'note': 'The end-to-end clause is "seconds armed in echsx == limit".  The hand-overs in between (text echsq sends, duration the '
@@ -40,12 +40,13 @@ def register(PROPS):
         'drivers': [
             D('build/plain/exec/c14_chain', ['mode=chain', 'maxsec=180'], ['mode=chain', 'maxsec=1800'], label='chain'),
             D('build/plain/exec/c14_chain', ['mode=due', 'maxsec=180'], ['mode=due', 'maxsec=1800'], label='due'),
+            D('build/plain/exec/c14_chain', ['mode=zones'], label='zones', shards=4),
             D('harness/exec/c14_rt.py', ['set=quick'], [], label='real-time', interp=_PY, shards=1),
         ],
         'assumptions': [
             'limits are whole seconds (neither DURATION nor the date-time forms used carry fractions); DTSTART/DTEND in UTC form',
             'DURATION spellings are generated from the strict RFC 5545 grammar (after H only M, after M only S); the internal hand-overs are read leniently (any ISO 8601 P[nW][nD][T[nH][nM][nS]])',
-            'DUE equal to now is left out (killed-at-once and refused are both defensible)',
+            'DUE equal to now: refused and killed-at-once are both accepted; starting the job without any timer is a violation',
             'the daemon-side callbacks are invoked directly in libev\'s order; the submitting user is the invoking user (uid 0 here), whose passwd entry supplies the default shell/home',
             'real-time part: the limit may be undercut by the time between arming and spawning (tolerance 0.1 s) and overrun by up to 4 s (shared machine)',
         ],
